@@ -962,5 +962,323 @@ theorem putVariable_get (s : State) (n : String) (v : Val) (hc : s.constants.get
           (by rw [← hput]; exact Dict.get_put_self locals n v)
 
 
+/-! ## 8. loops from their test on -/
+
+/-- an assembled loop from its test on: `test; JUMP IF_FALSE →END_LOOP; inner; JUMP →test; END_LOOP` -/
+def loopTail (test inner : List Instr) : List Instr :=
+  test ++ [Instr.jump .ifFalse (inner.length + 2)] ++ inner ++
+    [Instr.jump .always (-((test.length + 1 + inner.length : Nat) : Int))] ++ [Instr.endLoop]
+
+theorem loopCode_eq (pre test inner : List Instr) :
+    loopCode pre test inner = [Instr.loop] ++ pre ++ loopTail test inner := by
+  simp [loopCode, loopTail]
+
+theorem loopTail_length (test inner : List Instr) :
+    (loopTail test inner).length = test.length + 1 + inner.length + 2 := by
+  simp [loopTail]; omega
+
+/-- where the pieces of a loop are, given where its test starts -/
+theorem loopTail_parts {img : Image} {top : Nat} {test b post : List Instr}
+    (h : CodeAt img top (loopTail test (b ++ post))) :
+    CodeAt img top test ∧
+    img.code[top + test.length]? = some (.jump .ifFalse ((b.length + post.length : Nat) + 2)) ∧
+    CodeAt img (top + test.length + 1) b ∧
+    CodeAt img (top + test.length + 1 + b.length) post ∧
+    img.code[top + test.length + 1 + b.length + post.length]? =
+      some (.jump .always (-((test.length + 1 + (b.length + post.length) : Nat) : Int))) ∧
+    img.code[top + test.length + 1 + b.length + post.length + 1]? = some .endLoop := by
+  unfold loopTail at h
+  have h1 := h.left.left.left.left
+  have h2 := h.left.left.left.right.head
+  have h3 := h.left.left.right
+  have h4 := h.left.right.head
+  have h5 := h.right.head
+  simp only [List.length_append, List.length_cons, List.length_nil] at h2 h3 h4 h5
+  refine ⟨h1, h2, ?_, ?_, ?_, ?_⟩
+  · have := h3.left
+    simpa [Nat.add_assoc] using this
+  · have := h3.right
+    simpa [Nat.add_assoc] using this
+  · simpa [Nat.add_assoc] using h4
+  · simpa [Nat.add_assoc] using h5
+
+theorem loopCode_parts {img : Image} {P0 : Nat} {pre test inner : List Instr}
+    (hc : CodeAt img P0 (loopCode pre test inner)) :
+    img.code[P0]? = some .loop ∧ CodeAt img (P0 + 1) pre ∧
+    CodeAt img (P0 + 1 + pre.length) (loopTail test inner) ∧
+    (loopCode pre test inner).length = 1 + pre.length + (loopTail test inner).length := by
+  rw [loopCode_eq] at hc
+  refine ⟨?_, ?_, ?_, ?_⟩
+  · have := hc.left.left.head; simpa using this
+  · have := hc.left.right; simpa using this
+  · have := hc.right
+    have e : P0 + ([Instr.loop] ++ pre).length = P0 + 1 + pre.length := by simp; omega
+    rw [e] at this
+    exact this
+  · rw [loopCode_eq]; simp; omega
+
+/-! ## 9. more single steps and small facts -/
+
+/-- the counter stays a number when decreased -/
+theorem num_dec {cv : Val} {c : Rat} {fl : Bool} (hn : Num cv c fl) :
+    ∃ cv', Val.sub cv (.int 1) = some cv' ∧ Num cv' (c - 1) fl := by
+  obtain ⟨h1, h2⟩ := num_sub hn (Num.int 1)
+  refine ⟨_, h1, ?_⟩
+  simpa using h2
+
+theorem passes_zero_iff {c : Rat} : passes c = 0 ↔ c ≤ 0 := by
+  constructor
+  · intro h
+    apply Classical.byContradiction
+    intro hc
+    have : 0 < c := by grind
+    rw [passes_pos this] at h
+    omega
+  · exact passes_nonpos
+
+theorem natCast_succ_rat (k : Nat) : ((k + 1 : Nat) : Rat) = (k : Rat) + 1 := by
+  simp [Rat.natCast_add]
+
+theorem _root_.Bardolph.VmSteps.CodeAt.slice {img : Image} {pc : Nat} {code : List Instr} (h : CodeAt img pc code)
+    (i n : Nat) : CodeAt img (pc + i) ((code.drop i).take n) := by
+  intro k hk
+  simp only [List.length_take, List.length_drop] at hk
+  have := h (i + k) (by omega)
+  rw [Nat.add_assoc, this]
+  simp [List.getElem_take, List.getElem_drop]
+
+theorem _root_.Bardolph.VmSteps.CodeAt.get {img : Image} {pc : Nat} {code : List Instr} (h : CodeAt img pc code)
+    (i : Nat) (hi : i < code.length) : img.code[pc + i]? = some code[i] := h i hi
+
+/-- `MOVEQ v <loop variable>` -/
+theorem run_moveq_lv (img : Image) (s : State) (pc : Nat) (l : LoopVar) (v : Val)
+    (vars : List (LoopVar × Val)) (h : Nat) (rest : List Frame)
+    (hs : s.status = .running) (hpc : s.pc = (pc : Int))
+    (hi : img.code[pc]? = some (.moveq v (.loopVar l))) (hst : s.stack = .loop vars h :: rest) :
+    run img 1 s = { s with pc := (pc : Int) + 1, stack := .loop (setLV vars l v) h :: rest } := by
+  have hput : s.put (.loopVar l) v = { s with stack := .loop (setLV vars l v) h :: rest } := by
+    simp only [State.put, putLoopVar_eq hst]
+  rw [run_one _ _ hs, step_moveq img s pc v (.loopVar l) hs hpc hi (by simp) (by rw [hput]; exact hs), hput]
+  simp [hpc]
+
+/-- `MOVE <loop variable> <variable>` -/
+theorem run_move_lv_var (img : Image) (s : State) (pc : Nat) (l : LoopVar) (n : String)
+    (vars : List (LoopVar × Val)) (h : Nat) (rest : List Frame)
+    (hs : s.status = .running) (hpc : s.pc = (pc : Int))
+    (hi : img.code[pc]? = some (.move (.loopVar l) (.var n))) (hst : s.stack = .loop vars h :: rest) :
+    run img 1 s = { s.putVariable n (getLV vars l) with pc := (pc : Int) + 1 } := by
+  rw [run_one _ _ hs, step_move img s pc _ _ hs hpc hi (by simpa [State.put, putVariable_status] using hs)]
+  simp [State.put, State.read, getLoopVar_eq hst, putVariable_pc, hpc]
+
+theorem run_jump_always (img : Image) (s : State) (pc : Nat) (off : Int)
+    (hs : s.status = .running) (hpc : s.pc = (pc : Int))
+    (hi : img.code[pc]? = some (.jump .always off)) :
+    run img 1 s = { s with pc := (pc : Int) + off } := by
+  rw [run_one _ _ hs, step_jump_always img s pc off hs hpc hi]
+
+theorem run_jump_ifFalse (img : Image) (s : State) (pc : Nat) (off : Int)
+    (hs : s.status = .running) (hpc : s.pc = (pc : Int))
+    (hi : img.code[pc]? = some (.jump .ifFalse off)) :
+    run img 1 s = { s with pc := if (s.regs .result).truthy then (pc : Int) + 1 else (pc : Int) + off } := by
+  rw [run_one _ _ hs, step_jump_ifFalse img s pc off hs hpc hi]
+
+theorem Num.cast {v : Val} {q q' : Rat} {f f' : Bool} (h : Num v q f) (hq : q = q') (hf : f = f') :
+    Num v q' f' := by subst hq; subst hf; exact h
+
+theorem run_pushq (img : Image) (s : State) (pc : Nat) (v : Val)
+    (hs : s.status = .running) (hpc : s.pc = (pc : Int)) (hi : img.code[pc]? = some (.pushq v)) :
+    run img 1 s = { s with pc := (pc : Int) + 1, eval := v :: s.eval } := by
+  rw [run_one _ _ hs, step_pushq img s pc v hs hpc hi]
+
+theorem pfRun_append (rd : Src → Val) (a b : List Instr) (stk : List Val) :
+    pfRun rd (a ++ b) stk = (pfRun rd a stk).bind (pfRun rd b) := by
+  induction a generalizing stk with
+  | nil => simp [pfRun]
+  | cons i is ih =>
+    simp only [List.cons_append, pfRun]
+    cases pfStep rd stk i with
+    | none => simp
+    | some s1 => simp [ih]
+
+/-- a postfix run ended by `POP <loop variable>`, whatever it leaves below the value -/
+theorem run_pf_lv' (img : Image) (pf : List Instr) (l : LoopVar) (s : State) (pc : Nat) (r : Val)
+    (stk' : List Val) (vars : List (LoopVar × Val)) (h : Nat) (rest : List Frame)
+    (hs : s.status = .running) (hpc : s.pc = (pc : Int))
+    (hc : CodeAt img pc (pf ++ [.pop (.loopVar l)])) (hst : s.stack = .loop vars h :: rest)
+    (hr : pfRun s.read pf s.eval = some (r :: stk')) :
+    run img (pf.length + 1) s =
+      { s with pc := (pc : Int) + pf.length + 1, eval := stk',
+               stack := .loop (setLV vars l r) h :: rest } := by
+  rw [run_add, run_pf img s.read pf s pc _ hs hpc hc.left (fun _ => rfl) hr, run_one _ _ (by exact hs),
+    step_pop img _ (pc + pf.length) (.loopVar l) r stk' (by exact hs) (by simp) hc.right.head (by rfl)]
+  have hst' : ({ s with pc := (pc : Int) + pf.length, eval := stk' } : State).stack = .loop vars h :: rest := hst
+  simp only [State.put, putLoopVar_eq hst']
+  simp [hs]
+
+/-- `MOVE src <loop variable>` -/
+theorem run_move_lv (img : Image) (s : State) (pc : Nat) (src : Src) (l : LoopVar)
+    (vars : List (LoopVar × Val)) (h : Nat) (rest : List Frame)
+    (hs : s.status = .running) (hpc : s.pc = (pc : Int))
+    (hi : img.code[pc]? = some (.move src (.loopVar l))) (hst : s.stack = .loop vars h :: rest) :
+    run img 1 s = { s with pc := (pc : Int) + 1, stack := .loop (setLV vars l (s.read src)) h :: rest } := by
+  have hput : s.put (.loopVar l) (s.read src) =
+      { s with stack := .loop (setLV vars l (s.read src)) h :: rest } := by
+    simp only [State.put, putLoopVar_eq hst]
+  rw [run_one _ _ hs, step_move img s pc src (.loopVar l) hs hpc hi (by rw [hput]; exact hs), hput]
+  simp [hpc]
+
+/-- **operands that need no code of their own** — a literal, a variable, a register
+(`SimpleArg`): `genRv a → <loop variable>` is one instruction that stores what `a` denotes in
+the current state (`s.read a.src`) -/
+theorem run_simple_lv (img : Image) (s : State) (pc : Nat) (a : Rv) (ha : SimpleArg a) (l : LoopVar)
+    (vars : List (LoopVar × Val)) (h : Nat) (rest : List Frame)
+    (hs : s.status = .running) (hpc : s.pc = (pc : Int))
+    (hc : CodeAt img pc (genRv a (.to (.loopVar l)))) (hst : s.stack = .loop vars h :: rest) :
+    (genRv a (.to (.loopVar l))).length = 1 ∧
+    run img 1 s =
+      { s with pc := (pc : Int) + 1, stack := .loop (setLV vars l (s.read a.src)) h :: rest } := by
+  cases ha with
+  | lit v =>
+    have hc' : CodeAt img pc [Instr.moveq v (.loopVar l)] := by simpa [genRv] using hc
+    exact ⟨by simp [genRv], run_moveq_lv img s pc l v vars h rest hs hpc hc'.head hst⟩
+  | var n =>
+    have hc' : CodeAt img pc [Instr.move (.var n) (.loopVar l)] := by simpa [genRv] using hc
+    exact ⟨by simp [genRv], run_move_lv img s pc (.var n) l vars h rest hs hpc hc'.head hst⟩
+  | reg r =>
+    have hc' : CodeAt img pc [Instr.move (.reg r) (.loopVar l)] := by simpa [genRv] using hc
+    exact ⟨by simp [genRv], run_move_lv img s pc (.reg r) l vars h rest hs hpc hc'.head hst⟩
+
+/-- what a simple operand denotes does not depend on `pc` or the innermost loop frame's hidden
+variables -/
+theorem read_simple_retop (a : Rv) (ha : SimpleArg a) (s t : State)
+    (vars vars' : List (LoopVar × Val)) (h h' : Nat) (rest : List Frame)
+    (hs : s.stack = .loop vars h :: rest) (ht : t.stack = .loop vars' h' :: rest)
+    (hc : t.constants = s.constants) (hg : t.globals = s.globals) (hr : t.regs = s.regs) :
+    t.read a.src = s.read a.src := by
+  cases ha with
+  | lit v => rfl
+  | var n => exact getVariable_retop s t vars vars' h h' rest n hs ht hc hg
+  | reg r => simp [Rv.src, State.read, hr]
+
+theorem genRv_simple_length (a : Rv) (ha : SimpleArg a) (l : LoopVar) :
+    (genRv a (.to (.loopVar l))).length = 1 := by
+  cases ha <;> simp [genRv]
+
+theorem add_int_int (i j : Int) : Val.add (.int i) (.int j) = some (.int (i + j)) := by
+  have := (num_add (Num.int i) (Num.int j)).1
+  rw [this]
+  simp [Val.mkNum, ← Rat.intCast_add, Rat.num_intCast]
+
+/-! ## 10. `sortNames` sorts, `dedupSorted` removes duplicates -/
+
+/-- one insertion step of `Vm.sortNames` -/
+def insName (x : String) (acc : List String) : List String :=
+  acc.takeWhile (· < x) ++ [x] ++ acc.dropWhile (· < x)
+
+theorem insName_cons (x a : String) (acc : List String) :
+    insName x (a :: acc) = if a < x then a :: insName x acc else x :: a :: acc := by
+  unfold insName
+  by_cases h : a < x
+  · simp [h]
+  · simp [h]
+
+theorem insName_perm (x : String) (acc : List String) : (insName x acc).Perm (x :: acc) := by
+  unfold insName
+  have h := List.takeWhile_append_dropWhile (p := (· < x)) (l := acc)
+  calc acc.takeWhile (· < x) ++ [x] ++ acc.dropWhile (· < x)
+      = acc.takeWhile (· < x) ++ x :: acc.dropWhile (· < x) := by simp
+    _ |>.Perm (x :: (acc.takeWhile (· < x) ++ acc.dropWhile (· < x))) := List.perm_middle
+    _ = x :: acc := by rw [h]
+
+theorem mem_insName (x y : String) (acc : List String) : y ∈ insName x acc ↔ y = x ∨ y ∈ acc := by
+  rw [(insName_perm x acc).mem_iff]; simp
+
+theorem insName_sorted (x : String) (acc : List String) (h : acc.Pairwise (· ≤ ·)) :
+    (insName x acc).Pairwise (· ≤ ·) := by
+  induction acc with
+  | nil => simp [insName]
+  | cons a acc ih =>
+    rw [insName_cons]
+    rw [List.pairwise_cons] at h
+    split
+    · rename_i hlt
+      rw [List.pairwise_cons]
+      refine ⟨?_, ih h.2⟩
+      intro y hy
+      rcases (mem_insName x y acc).1 hy with rfl | hy
+      · exact fun hgt => String.lt_asymm hlt hgt
+      · exact h.1 y hy
+    · rename_i hge
+      rw [List.pairwise_cons, List.pairwise_cons]
+      refine ⟨?_, h.1, h.2⟩
+      intro y hy
+      rcases List.mem_cons.1 hy with rfl | hy
+      · exact hge
+      · exact String.le_trans hge (h.1 y hy)
+
+theorem sortNames_eq (xs : List String) : sortNames xs = xs.foldl (fun acc x => insName x acc) [] := rfl
+
+theorem foldl_ins_sorted (xs acc : List String) (h : acc.Pairwise (· ≤ ·)) :
+    (xs.foldl (fun acc x => insName x acc) acc).Pairwise (· ≤ ·) := by
+  induction xs generalizing acc with
+  | nil => exact h
+  | cons x xs ih => exact ih _ (insName_sorted x acc h)
+
+theorem foldl_ins_perm (xs acc : List String) :
+    (xs.foldl (fun acc x => insName x acc) acc).Perm (xs ++ acc) := by
+  induction xs generalizing acc with
+  | nil => exact .refl _
+  | cons x xs ih =>
+    refine (ih (insName x acc)).trans ?_
+    refine ((insName_perm x acc).append_left xs).trans ?_
+    simp
+
+theorem mem_dedupSorted (xs : List String) (y : String) : y ∈ dedupSorted xs ↔ y ∈ xs := by
+  induction xs using dedupSorted.induct with
+  | case1 => simp [dedupSorted]
+  | case2 a => simp [dedupSorted]
+  | case3 a b rest hab ih =>
+    simp only [dedupSorted, hab, if_true, ih]
+    have : a = b := by simpa using hab
+    subst this; simp
+  | case4 a b rest hab ih =>
+    simp only [dedupSorted, hab, List.mem_cons, Bool.false_eq_true, if_false]
+    rw [ih]; simp
+
+theorem dedupSorted_strict (xs : List String) (h : xs.Pairwise (· ≤ ·)) :
+    (dedupSorted xs).Pairwise (· < ·) := by
+  induction xs using dedupSorted.induct with
+  | case1 => simp [dedupSorted]
+  | case2 a => simp [dedupSorted]
+  | case3 a b rest hab ih =>
+    simp only [dedupSorted, hab, if_true]
+    exact ih (List.pairwise_cons.1 h).2
+  | case4 a b rest hab ih =>
+    simp only [dedupSorted, hab]
+    rw [List.pairwise_cons] at h
+    simp only [Bool.false_eq_true, if_false]
+    rw [List.pairwise_cons]
+    refine ⟨?_, ih h.2⟩
+    intro y hy
+    have hy' := (mem_dedupSorted (b :: rest) y).1 hy
+    have hle : a ≤ y := h.1 y hy'
+    have hne : a ≠ b := by simpa using hab
+    -- a ≤ b ≤ y and a ≠ b
+    have hab' : a ≤ b := h.1 b (by simp)
+    have hlt : a < b := by
+      apply Classical.byContradiction
+      intro hn
+      exact hne (String.le_antisymm hab' (String.not_lt.1 hn))
+    rcases List.mem_cons.1 hy' with rfl | hyr
+    · exact hlt
+    · have hby : b ≤ y := (List.pairwise_cons.1 h.2).1 y hyr
+      apply Classical.byContradiction
+      intro hn
+      have : y ≤ a := String.not_lt.1 hn
+      exact (String.le_trans hby this) hlt
+
+theorem strict_nodup (xs : List String) (h : xs.Pairwise (· < ·)) : xs.Nodup :=
+  h.imp fun hlt => String.ne_of_lt hlt
+
 end Loops
 end Bardolph
